@@ -3189,8 +3189,7 @@ static int get_first_char(struct scanner_s *scanner) {
             *scanner->buffer = UCHAR_NL;
 
             /* try to convert one more character, to check for CRLF */
-            nread = scanner->read_func(scanner->char_source, scanner->buffer + 1, scanner->buffer_size - 1,
-                    &read_error);
+            nread = scanner->read_func(scanner->char_source, scanner->buffer + 1, 1, &read_error);
             if (nread < 0) {
                 return read_error;
             } else if (nread == 0) {
